@@ -452,4 +452,52 @@ fn unicode_to_macroman(c: u32) -> u32 {
 #[allow(unused_imports, dead_code, missing_docs)]
 pub mod verif_hooks {
     use super::*;
+    use alloc::vec;
+    use alloc::vec::Vec;
+
+    /// Index of the cmap subtable chosen by `find_best_cmap_subtable`.
+    pub fn best_cmap_subtable(face: &hb_font_t) -> Option<u16> {
+        find_best_cmap_subtable(&face.ttfp_face)
+    }
+
+    /// (platform id, encoding id) of every cmap subtable, in table order.
+    pub fn cmap_subtables(face: &hb_font_t) -> Vec<(u16, u16)> {
+        let mut v = Vec::new();
+        if let Some(cmap) = face.tables().cmap {
+            for st in cmap.subtables {
+                let p = match st.platform_id {
+                    ttf_parser::PlatformId::Unicode => 0,
+                    ttf_parser::PlatformId::Macintosh => 1,
+                    ttf_parser::PlatformId::Iso => 2,
+                    ttf_parser::PlatformId::Windows => 3,
+                    ttf_parser::PlatformId::Custom => 4,
+                };
+                v.push((p, st.encoding_id));
+            }
+        }
+        v
+    }
+
+    pub fn nominal_glyph(face: &hb_font_t, c: u32) -> Option<u16> {
+        face.get_nominal_glyph(c).map(|g| g.0)
+    }
+
+    /// (glyph_h_advance, glyph_v_advance, glyph_h_origin, glyph_v_origin)
+    pub fn glyph_metrics(face: &hb_font_t, glyph: u16) -> (i32, i32, i32, i32) {
+        let g = GlyphId(glyph);
+        (
+            face.glyph_h_advance(g),
+            face.glyph_v_advance(g),
+            face.glyph_h_origin(g),
+            face.glyph_v_origin(g),
+        )
+    }
+
+    pub fn to_macroman(c: u32) -> u32 {
+        unicode_to_macroman(c)
+    }
+
+    pub fn macroman_table() -> &'static [u16] {
+        UNICODE_TO_MACROMAN
+    }
 }
